@@ -46,15 +46,35 @@ def check(pid, tier, args):
             if "goroutine" not in p.stderr or "mandykoh" not in p.stderr:
                 raise vlib.Infra("imagexform driver failed: %s" % p.stderr[-1500:])
             marker = os.path.join(sc, "xform_marker.ndjson")
-            p2 = vlib.run(cmd + ["-serial", marker], timeout=6000, check=False, env=env)
-            if p2.returncode == 0:
-                raise vlib.Infra("driver crash did not reproduce single-threaded: %s" % p.stderr[-1500:])
-            last = json.loads(open(marker).read().strip().splitlines()[-1])
-            first_line = [l for l in p2.stderr.splitlines() if l.startswith("panic:") or l.startswith("fatal error:")][:1]
-            run.violation({"finding_key": None, "crashing_run": last, "stderr": p2.stderr[:1500]},
-                          "process died (%s) in %s %s->%s parallelism %d on cfg %s (GOMAXPROCS %s)" % (
-                              first_line[0] if first_line else "crash", last["xform"], last["src"], last["dst"], last["par"],
-                              json.dumps(last["cfg"]), procs or "default"))
+            p2 = None
+            for attempt in range(3):      # a crash that depends on how the library's workers interleave may need a few tries
+                p2 = vlib.run(cmd + ["-serial", marker], timeout=6000, check=False, env=env)
+                if p2.returncode != 0:
+                    break
+            if p2.returncode != 0:
+                last = json.loads(open(marker).read().strip().splitlines()[-1])
+                first_line = [l for l in p2.stderr.splitlines() if l.startswith("panic:") or l.startswith("fatal error:")][:1]
+                run.violation({"finding_key": None, "crashing_run": last, "stderr": p2.stderr[:1500]},
+                              "process died (%s) in %s %s->%s parallelism %d on cfg %s (GOMAXPROCS %s)" % (
+                                  first_line[0] if first_line else "crash", last["xform"], last["src"], last["dst"], last["par"],
+                                  json.dumps(last["cfg"]), procs or "default"))
+            else:
+                # not with one job at a time: observe the whole run again; a second death inside the library
+                # is reported with its stack (the configuration stays unknown)
+                again = None
+                for attempt in range(3):
+                    pa = vlib.run(cmd, timeout=3000, check=False, env=env)
+                    if pa.returncode != 0 and "goroutine" in pa.stderr and "mandykoh" in pa.stderr:
+                        again = pa
+                        break
+                if again is None:
+                    raise vlib.Infra("driver crash did not reproduce: %s" % p.stderr[-1500:])
+                first_line = [l for l in again.stderr.splitlines() if l.startswith("panic:") or l.startswith("fatal error:")][:1]
+                frames = [l.strip() for l in again.stderr.splitlines() if "mandykoh/prism" in l][:4]
+                last = {"note": "died in the concurrent run only; two independent runs", "frames": frames}
+                run.violation({"finding_key": None, "stderr_first": p.stderr[:1500], "stderr_second": again.stderr[:1500]},
+                              "process died twice (%s) inside the library's workers during the image transforms (GOMAXPROCS %s): %s" % (
+                                  first_line[0] if first_line else "crash", procs or "default", "; ".join(frames)[:300]))
             run.cov["traces_validated_against_impl"] = 0
             run.sample(last)
             return run.finish()
